@@ -314,7 +314,7 @@ def ev_other(case, rec):
             bad = []
             for i, (r, (c, s)) in enumerate(zip(sites, m['stations'])):
                 lon, lat = snxgen.site_lonlat(i)[2:]
-                if r[0] != c or r[1] != 'A' or r[2] != '5013%dM001' % i or r[3] != 'P' or abs(r[5].dec() - lon) > 1e-12 or abs(r[6].dec() - lat) > 1e-12:
+                if r[0] != c or r[1] != 'A' or r[2] != snxgen.domes(i) or r[3] != 'P' or abs(r[5].dec() - lon) > 1e-12 or abs(r[6].dec() - lat) > 1e-12:
                     bad.append(('site fields', list(map(str, r[:7]))))
                 if r[7] != m['heights'][i]:
                     bad.append(('height', r[7], m['heights'][i]))
